@@ -31,7 +31,7 @@ CHECKS = {
     "C12": {"suites": [VIEWS0, PRUNE, FLOAT, FLOAT_EXH], "lean_modules": ["SelenModel.Props.C12", "SelenModel.Props.C12Float"],
             "assumptions": INT_ASSUME + FLOAT_ASSUME},
     "C06": {"suites": [FLOAT, FLOAT_ENGINE, FLOAT_ENGINE_EXH, API], "assumptions": FLOAT_ASSUME + ["the theorems are about the float/int linear propagators and the float arms of try_set_min/max (Model/FloatCore.lean); the API-level stream (#flapi lines, witness-constructed models through Model) is an oracle on the implementation only"]},
-    "C07": {"suites": [FLOAT, FLOAT_ENGINE, FLOAT_ENGINE_EXH], "assumptions": FLOAT_ASSUME + ["witness-constructed models: every inequality holds at the witness with margin >= max|c_i|*step_i, equalities hold exactly at grid points (the hypothesis of C07_floatlin_sound_margin)"]},
+    "C07": {"suites": [FLOAT, FLOAT_ENGINE, FLOAT_ENGINE_EXH, API], "assumptions": FLOAT_ASSUME + ["witness-constructed models: every inequality holds at the witness with margin >= max|c_i|*step_i, equalities hold exactly at grid points (the hypothesis of C07_floatlin_sound_margin)", "API-level stream: models with float terms built through Model (int2float, float min/max/element, products with integers) whose solutions sit at exactly representable points; a NoSolution verdict on a satisfiable one is reported under C07 (oracle on the implementation only)"]},
     "C16": {"suites": [{"name": "determ", "suite": "determ", "quick": ["--count", 1500], "thorough": ["--count", 20000]}],
             "cross_process": {"quick": [1500, 3], "thorough": [6000, 8]},
             "assumptions": ["determinism across processes is OBSERVED (byte-identical transcripts of separate OS processes with different SipHash keys), not proved; the theorems show that every hash-ordered collection on the solving path is consumed by an order-blind operation (sort after collect, commuting removals, keyed access) and that the model's search is a function of its inputs",
